@@ -429,3 +429,114 @@ func TestReplayC18(t *testing.T) {
 }
 
 var _ = rand.Int
+
+// ---- sequences of scale requests on ONE manager (the coordinator calls ChangeScale up to twice per
+// cycle on the manager it got from Replicas()), interleaved with scale changes made by somebody else
+
+type seqOp struct {
+	Kind string `json:"kind"` // scale | external
+	N    int    `json:"n"`
+}
+
+type seqCase struct {
+	Start     int     `json:"start"`
+	Templates int     `json:"templates"`
+	Delete    bool    `json:"delete"`
+	Ops       []seqOp `json:"ops"`
+}
+
+func runSeq(c *seqCase) []vkit.Violation {
+	var vs []vkit.Violation
+	add := func(key, f string, a ...interface{}) {
+		vs = append(vs, vkit.Violation{Key: key, Msg: fmt.Sprintf(f, a...)})
+	}
+	var tmpls []string
+	for i := 0; i < c.Templates; i++ {
+		tmpls = append(tmpls, fmt.Sprintf("data%d", i))
+	}
+	objs := []runtime.Object{mkSts("set", c.Start, tmpls, "set", c.Start)}
+	claims := map[string]bool{}
+	for _, t := range tmpls {
+		for i := 0; i <= 14; i++ {
+			n := fmt.Sprintf("%s-set-%d", t, i)
+			objs = append(objs, mkPVC(n))
+			claims[n] = true
+		}
+	}
+	cli := fake.NewSimpleClientset(objs...)
+	rm := kshard.NewReplicasManager(cli, ns, "app.kubernetes.io/name=prometheus", 8080, c.Delete, quiet)
+	mans, err := rm.Replicas()
+	if err != nil || len(mans) != 1 {
+		add("C18/replicas-listing", "Replicas() returned %d managers, err %v", len(mans), err)
+		return vs
+	}
+	man := mans[0]
+	live := c.Start
+	for i, op := range c.Ops {
+		switch op.Kind {
+		case "external":
+			set, _ := cli.AppsV1().StatefulSets(ns).Get(context.TODO(), "set", metav1.GetOptions{})
+			set.Spec.Replicas = i32(op.N)
+			if _, err := cli.AppsV1().StatefulSets(ns).Update(context.TODO(), set, metav1.UpdateOptions{}); err != nil {
+				add("C18/harness", "external update: %v", err)
+				return vs
+			}
+			live = op.N
+		case "scale":
+			if err := man.ChangeScale(int32(op.N)); err != nil {
+				add("C18/change-scale-error", "step %d: ChangeScale(%d): %v", i, op.N, err)
+				return vs
+			}
+			if c.Delete {
+				for _, t := range tmpls {
+					for o := op.N; o < live; o++ {
+						delete(claims, fmt.Sprintf("%s-set-%d", t, o))
+					}
+				}
+			}
+			set, _ := cli.AppsV1().StatefulSets(ns).Get(context.TODO(), "set", metav1.GetOptions{})
+			if set.Spec.Replicas == nil || int(*set.Spec.Replicas) != op.N {
+				add("C18/replicas-not-set/sequence", "step %d of %+v: spec.replicas is %v after ChangeScale(%d) (was %d)", i, c.Ops, *set.Spec.Replicas, op.N, live)
+				return vs
+			}
+			live = op.N
+			var want []string
+			for n := range claims {
+				want = append(want, n)
+			}
+			sort.Strings(want)
+			if got := pvcNames(cli); strings.Join(got, ",") != strings.Join(want, ",") {
+				add("C18/claims-differ/sequence", "step %d of %+v: %d claims left, want %d", i, c.Ops, len(got), len(want))
+				return vs
+			}
+		}
+	}
+	return vs
+}
+
+func TestC18Seq(t *testing.T) {
+	rec := recC18()
+	rapid.Check(t, func(t *rapid.T) {
+		c := &seqCase{Start: rapid.IntRange(0, 6).Draw(t, "start"), Templates: rapid.IntRange(0, 2).Draw(t, "templates"), Delete: rapid.Bool().Draw(t, "delete")}
+		n := rapid.IntRange(1, 5).Draw(t, "ops")
+		back := false
+		for i := 0; i < n; i++ {
+			op := seqOp{Kind: "scale", N: rapid.IntRange(0, 8).Draw(t, fmt.Sprintf("n%d", i))}
+			if rapid.IntRange(0, 3).Draw(t, fmt.Sprintf("ext%d", i)) == 0 {
+				op.Kind = "external"
+			}
+			if rapid.IntRange(0, 2).Draw(t, fmt.Sprintf("back%d", i)) == 0 {
+				op.N = c.Start // back to where the manager started
+				back = true
+			}
+			c.Ops = append(c.Ops, op)
+		}
+		vs := rec.Filter(runSeq(c))
+		b, _ := json.Marshal(c)
+		rec.Eval(len(c.Ops) >= 2 && back, vkit.Digest(string(b)), "sequence")
+		if len(vs) > 0 {
+			p := vkit.SaveViolation("C18", "TestC18Seq", c, vs, nil)
+			t.Fatalf("%s (replay %s)", vs[0], p)
+		}
+	})
+}
